@@ -190,6 +190,17 @@ func genGroup(c *cf.Case, r *cf.Rng, prop string) {
 		}
 		c.Faults = append(c.Faults, f)
 	}
+	if r.Intn(8) == 0 && len(c.Cluster.Topics) > 0 {
+		// a partition whose offsets cannot be looked up when its claim is started (first try and the retry
+		// after the metadata refresh): the claim cannot start, which ends the session
+		t := c.Cluster.Topics[r.Intn(len(c.Cluster.Topics))]
+		p := t.Partitions[r.Intn(len(t.Partitions))].ID
+		k := r.Pick(1, 1, 3)
+		code := r.Pick(6, 5, 3)
+		for j := 0; j < 2; j++ {
+			c.Faults = append(c.Faults, cf.Fault{When: cf.When{API: "ListOffsets", Topic: t.Name, Partition: p, HasPart: true, Nth: k + j}, Do: "errcode", Code: code})
+		}
+	}
 	_ = fmt.Sprint
 	c.MaxSimMs = end/1000 + int64(120000+40*(cfg.RebalanceMs+cfg.SessionMs+(cfg.RebRetryMax+1)*cfg.RebBackoffMs+cfg.ReadTimeoutMs+cfg.DialTimeoutMs+(cfg.MetaRetryMax+1)*(cfg.MetaBackoffMs+cfg.ReadTimeoutMs)))
 }
